@@ -21,6 +21,7 @@ Oracle : the worker survives (no signal, no sanitizer report); the call in which
 """
 import re
 import threading
+import time
 
 from hypothesis import strategies as st
 
@@ -31,7 +32,7 @@ KNOWN_LEAK = 'C21:partial-object-leaked-when-later-allocation-fails'
 
 SIMPLE = ('<mujoco><worldbody><geom type="plane" size="1 1 .1"/><body pos="0 0 .3"><freejoint/><geom size=".1"/></body>'
           '</worldbody></mujoco>')
-RICH = '''<mujoco><compiler autolimits="true"/><size memory="1M"/>
+RICH = '''<mujoco><compiler autolimits="true"><lengthrange inttotal="2" interval="1" timestep="0.01"/></compiler><size memory="1M"/>
 <asset><texture name="t" type="2d" builtin="checker" width="16" height="16" rgb1="1 0 0" rgb2="0 1 0"/><material name="mat" texture="t"/>
 <mesh name="tet" vertex="0 0 0 .2 0 0 0 .2 0 0 0 .2"/><hfield name="hf" nrow="3" ncol="3" size="1 1 .2 .1" elevation="0 .1 0 .1 .2 .1 0 .1 0"/></asset>
 <worldbody><geom type="hfield" hfield="hf" pos="0 0 -1"/><geom type="plane" size="2 2 .1" material="mat"/><site name="s1" pos="0 0 1"/>
@@ -42,7 +43,7 @@ RICH = '''<mujoco><compiler autolimits="true"/><size memory="1M"/>
 <actuator><muscle name="mu" tendon="tn"/><position joint="h" kp="10"/><general joint="h2" dyntype="filter" dynprm="0.1"/></actuator>
 <sensor><jointpos joint="h"/><touch site="s2"/></sensor>
 <keyframe><key name="k" qpos="0 0 .5 1 0 0 0 .1 .1"/></keyframe></mujoco>'''
-RICH_SERIAL = RICH.replace('<compiler autolimits="true"/>', '<compiler autolimits="true" usethread="false"/>')
+RICH_SERIAL = RICH.replace('<compiler autolimits="true">', '<compiler autolimits="true" usethread="false">')
 SCENARIOS = ('lifecycle', 'file', 'spec', 'vfs', 'visual')
 KNOWN_THREAD = 'C21:compile-pool-thread-longjmp-through-uninitialised-jmp_buf'
 
@@ -107,8 +108,8 @@ def main(ck):
   models = [('simple', SIMPLE), ('rich', RICH_SERIAL), ('rich-threaded', RICH)]
   gen = []
   ck.run_hypothesis(lambda gm: gen.append(gm), mg.models(max_bodies=4, sensors=True, mocap=True, keyframes=True),
-                    ck.budget(2, 40), name='models')
-  for i, gm in enumerate(gen[:ck.budget(2, 40)]):
+                    ck.budget(1, 40), name="models")
+  for i, gm in enumerate(gen[:ck.budget(1, 40)]):
     models.append(('gen%d' % i, gm.xml))
   from vf import build as vb, nativeso
   for v in ('rel', 'asan'):
@@ -136,11 +137,16 @@ def main(ck):
           res[i] = o
     ths = [threading.Thread(target=go, args=(ia, True, npa, 'C21asan')),
            threading.Thread(target=go, args=(ir, False, npr, 'C21rel'))]
+    t0 = time.time()
     for t in ths:
       t.start()
     for t in ths:
       t.join()
+    waves.append((len(ia), len(ir), round(time.time() - t0, 1)))
     return res
+
+  waves = []
+  ck.extra['waves(asan_jobs,rel_jobs,seconds)'] = waves
 
   def death(job, res):
     j = res.get('journal') or {}
@@ -158,60 +164,60 @@ def main(ck):
             labels=['variant=' + job['variant'], 'outcome:process-death'])
     return j
 
-  # ---- wave 1: count the allocations of each scenario
-  out = run_wave([dict(b, mode='count') for b in base])
+  # ---- one job per (scenario, model, build): count, enumerate, clean run; after a worker death continue behind the
+  # fatal fault position
+  nmulti = 6 if ck.quick else 40
   todo = []
-  counts = {}
-  for b, res in zip(base, out):
-    if not res['ok']:
-      if res.get('harness'):
-        raise RuntimeError('worker setup failed: %s' % res['stderr'][-1500:])
-      death(b, res)
-      continue
-    r = res['result']
-    bad = [e for e in r['events'] if e[1] != 'ok']
-    if bad:
-      ck.discard('scenario does not run fault-free on this model (%s)' % bad[0][0])
-      continue
-    if r['N'] != r['N2'] or r['leaked'] or r['badfree']:
-      ck.violation('%s/%s fault-free: N=%d then %d, leaked=%s badfree=%d' % (b['scenario'], b['model_name'], r['N'], r['N2'],
-                                                                             r['leaked'], r['badfree']),
-                   dict(job=b), bucket='fault-free-run:' + b['scenario'])
-      continue
-    N = r['N']
-    counts['%s/%s/%s' % (b['scenario'], b['model_name'], b['variant'])] = N
-    ks = list(range(1, N + 2))
-    nmulti = 6 if ck.quick else 40
-    if b['model_name'] == 'rich-threaded':
-      # every fault inside the threaded asset compilation kills the process (known finding): a few positions only
-      ks, nmulti = [1, 2, 3, N + 1], 0
-      ck.extra['rich_threaded_positions'] = ks
+  for b in base:
     multi = [[1000 * ck.seed + 17 * i + 1, [2, 3, 5, 8][i % 4]] for i in range(nmulti)]
-    todo.append(dict(b, mode='faults', ks=ks, multi=multi, N=N))
+    job = dict(b, multi=multi)
+    if b['model_name'] == 'rich-threaded':
+      # every fault inside the threaded asset compilation kills the process (known finding): first position only
+      job.update(max_k=1, multi=[])
+    todo.append(job)
+  counts = {}
   ck.extra['allocations_per_scenario'] = counts
-  ck.extra['single_faults_enumerated'] = sum(v + 1 for v in counts.values())
-  # ---- wave 2+: enumerate; after a worker death continue behind the fatal fault
   for attempt in range(10):
     if not todo:
       break
     out = run_wave(todo)
     nxt = []
     for job, res in zip(todo, out):
+      name = '%s/%s/%s' % (job['scenario'], job['model_name'], job['variant'])
       if not res['ok']:
         if res.get('harness'):
           raise RuntimeError('worker setup failed: %s' % res['stderr'][-1500:])
         j = death(job, res)
         if j.get('phase') == 'single-fault' and j.get('k') is not None:
-          nxt.append(dict(job, ks=[k for k in job['ks'] if k > j['k']]))
+          N = job.get('N_hint')
+          ks = job.get('ks') or list(range(1, 200))
+          rest = [k for k in ks if k > j['k']]
+          if job.get('max_k'):
+            rest = [k for k in rest if k <= job['max_k']] + [10 ** 6]     # 10**6: beyond N = the fault-free run
+          nxt.append(dict(job, ks=rest))
         elif j.get('phase') == 'multi-fault':
           rest = [m for m in job['multi'] if m[0] > j.get('seed', 1 << 60)]
           nxt.append(dict(job, ks=[], multi=rest))
         continue
       r = res['result']
+      cr = r['count_run']
+      bad = [e for e in cr['events'] if e[1] != 'ok']
+      if bad:
+        ck.discard('scenario does not run fault-free on this model (%s)' % bad[0][0])
+        continue
+      if r['N'] != r['N2'] or cr['leaked'] or cr['badfree']:
+        ck.violation('%s fault-free: N=%d then %d, leaked=%s badfree=%d' % (name, r['N'], r['N2'], cr['leaked'], cr['badfree']),
+                     dict(job={k: v for k, v in job.items() if k != 'ks'}), bucket='fault-free-run:' + job['scenario'])
+        continue
+      counts[name] = r['N']
+      job['N'] = r['N']
       for run in r['runs']:
+        if run.get('k', 0) > r['N'] + 1:
+          continue       # placeholder positions of a resubmitted job that lie beyond N+1
         judge(ck, job, run)
       judge(ck, job, r['final'], final=True)
     todo = nxt
+  ck.extra['single_faults_enumerated'] = sum(v + 1 for v in counts.values())
   ck.exhaustive = False
 
 
